@@ -81,7 +81,10 @@ def addPath (v : JS) : List (List Char) → Option JS → Option JS
   | [k], parent =>
     match parentMembers parent with
     | none => none
-    | some ms => some (.obj (ms ++ [(k, v)]))
+    | some ms =>
+      match lookupKey k ms with
+      | some (.obj _) => none      -- the name already is an object with members (an earlier, longer path): refused
+      | _ => some (.obj (ms ++ [(k, v)]))
   | k :: rest, parent =>
     match parentMembers parent with
     | none => none
@@ -155,5 +158,25 @@ def flattenVal : JS → List (List (List Char) × JS)
   | .obj ms => flattenMembers ms
   | v => [([], v)]
 end
+
+/-! ## which lists of column names the writers must spell, which they must refuse
+
+  "Refuse or spell": a list of column names can be carried by nested JSON objects exactly when every name is a
+  path (no empty segment) and no path is a prefix of another one (in particular no two are equal) — then every
+  value has its own place in the record (`json_paths_roundtrip`).  Every other list — a name that is a prefix
+  path of another, IN EITHER ORDER, duplicates, empty segments — has no lossless spelling and must be refused.
+  The driver op `c02.jspell` answers with this decision; the implementation's answer is what the real encoder did. -/
+
+def unrelatedB (p q : List (List Char)) : Bool := !(p.isPrefixOf q) && !(q.isPrefixOf p)
+
+def pairwiseUnrelatedB : List (List (List Char)) → Bool
+  | [] => true
+  | p :: ps => ps.all (unrelatedB p) && pairwiseUnrelatedB ps
+
+/-- `true` = the writers must spell the list, `false` = they must refuse it -/
+def pathsSpellable (names : List (List Char)) : Bool :=
+  match mapMOpt parsePath names with
+  | none => false
+  | some ps => pairwiseUnrelatedB ps
 
 end Csvq.Json
